@@ -128,18 +128,49 @@ Check taylor_expansion : forall (RA : RootArith), RingLaws (KK RA) -> forall (l 
   ev RA l (x + t)%A = (ev RA l x + t * dv RA l x + t * t * hv RA l x + t * t * t * tv RA l x t)%A.
 Print Assumptions taylor_expansion.
 
-(* laguer's inner loop returns (p(x), p'(x), p''(x)/2) *)
+(* laguer's inner loop returns (p(x), p'(x), p''(x)/2) and the running error bound
+   errv(a_m) = |a_m|,  errv(c + X Q) = |(c + X Q)(x)| + |x| errv(Q) *)
 Theorem horner_triple : forall (RA : RootArith), RingLaws (KK RA) -> forall a m x b err d f,
   m + 1 = length a -> horner3 RA a m x = Ok (b, err, d, f) ->
-  b = ev RA a x /\ d = dv RA a x /\ f = hv RA a x.
+  b = ev RA a x /\ d = dv RA a x /\ f = hv RA a x /\ err = errv RA a x.
 Proof. intros RA RL a m x b err d f. exact (horner_triple_lemma RA RL a m x b err d f). Qed.
 Check horner_triple : forall (RA : RootArith), RingLaws (KK RA) -> forall a m x b err d f,
   m + 1 = length a -> horner3 RA a m x = Ok (b, err, d, f) ->
-  b = ev RA a x /\ d = dv RA a x /\ f = hv RA a x.
+  b = ev RA a x /\ d = dv RA a x /\ f = hv RA a x /\ err = errv RA a x.
 Print Assumptions horner_triple.
 Example horner_triple_nonvacuous :
   RingLaws (KK (RA7 f0)) /\ exists b e d f, horner3 (RA7 f0) [f1; f2; f3; f1] 3 f2 = Ok (b, e, d, f).
 Proof. split; [exact A7_RingLaws | exact ex_horner7]. Qed.
+
+
+(* the meaning of a Converged exit: |p(x)| <= EPS * errv(p, x) at the returned iterate (the code's own test, with the
+   values the inner loop computes identified as p(x) and the running error bound) *)
+Theorem converged_means_small : forall (RA : RootArith), RingLaws (KK RA) -> forall a x l,
+  laguer RA a x = Ok l -> lwhy l = Converged ->
+  leb (kabs RA (ev RA a (lx l))) (mul (errv RA a (lx l)) (reps RA)) = true.
+Proof. intros RA RL a x l. exact (laguer_converged_meaning RA RL a x l). Qed.
+Check converged_means_small : forall (RA : RootArith), RingLaws (KK RA) -> forall a x l,
+  laguer RA a x = Ok l -> lwhy l = Converged ->
+  leb (kabs RA (ev RA a (lx l))) (mul (errv RA a (lx l)) (reps RA)) = true.
+Print Assumptions converged_means_small.
+
+(* ... and for a polished value: the test is on the UNDEFLATED polynomial *)
+Theorem polished_converged_small : forall (RA : RootArith), RingLaws (KK RA) -> forall coeffs rs tr j l,
+  poly_solve RA coeffs true = Ok (rs, tr) -> j < length coeffs - 1 ->
+  nth_error tr (length tr - (length coeffs - 1) + j) = Some l -> lwhy l = Converged ->
+  leb (kabs RA (ev RA coeffs (nth j rs zero))) (mul (errv RA coeffs (nth j rs zero)) (reps RA)) = true.
+Proof. intros RA RL coeffs rs tr j l. exact (polished_converged_meaning RA RL coeffs rs tr j l). Qed.
+Check polished_converged_small : forall (RA : RootArith), RingLaws (KK RA) -> forall coeffs rs tr j l,
+  poly_solve RA coeffs true = Ok (rs, tr) -> j < length coeffs - 1 ->
+  nth_error tr (length tr - (length coeffs - 1) + j) = Some l -> lwhy l = Converged ->
+  leb (kabs RA (ev RA coeffs (nth j rs zero))) (mul (errv RA coeffs (nth j rs zero)) (reps RA)) = true.
+Print Assumptions polished_converged_small.
+(* non-vacuity over GF(7) (EPS = 0, so Converged means p(x) = 0 exactly): x^4, refine = true *)
+Example polished_converged_small_nonvacuous :
+  RingLaws (KK RA7r) /\
+  exists rs tr l, poly_solve RA7r [f0; f0; f0; f0; f1] true = Ok (rs, tr) /\
+                  nth_error tr (length tr - 4 + 0) = Some l /\ lwhy l = Converged.
+Proof. split; [exact A7_RingLaws | exact ex_polish7]. Qed.
 
 (* forward deflation: p(t) = (t - x) q(t) + p(x), everything above index j untouched *)
 Theorem deflate_spec : forall (RA : RootArith), RingLaws (KK RA) -> forall ad j x ad' r,
